@@ -210,6 +210,14 @@ def grids(rng, rows, cols, lo, hi, kind="random"):
         gmin.flat[0], gmax.flat[0] = lo, lo + 2 * r
         gmin.flat[-1], gmax.flat[-1] = hi - 2 * r, hi
         return gmin.astype(np.float32), gmax.astype(np.float32)
+    if kind == "float":
+        # bounds that are not multiples of 1/subpix (grid files are float32; the multiscale step produces such grids);
+        # the hull keeps integer bounds so that the sampled range is unambiguous
+        a = lo + rng.random((rows, cols)) * (hi - lo)
+        b = lo + rng.random((rows, cols)) * (hi - lo)
+        gmin, gmax = np.minimum(a, b), np.maximum(a, b)
+        gmin.flat[0], gmax.flat[0] = lo, hi
+        return gmin.astype(np.float32), gmax.astype(np.float32)
     a = rng.integers(lo, hi + 1, (rows, cols))
     b = rng.integers(lo, hi + 1, (rows, cols))
     gmin, gmax = np.minimum(a, b), np.maximum(a, b)
